@@ -30,7 +30,8 @@ func NewIndividualPage(document *gedcom.Document, individual *gedcom.IndividualN
 }
 
 func (c *IndividualPage) WriteHTMLTo(w io.Writer) (int64, error) {
-	name := c.individual.Names()[0]
+	// The individual might not have a name.
+	name := c.individual.Name()
 
 	individualName := NewIndividualName(c.individual, c.options.LivingVisibility,
 		UnknownEmphasis)
